@@ -461,4 +461,6 @@ WITNESSES = [
      "new": "\t\t}\n\t\trtr_socket->session_id = cr_pdu->session_id;"},
     {"id": "C06.w12-copy-error-flag-overwritten", "rule": "C06.R4", "file": TP,
      "old": "\t\tif (pfx_table_add(args->pfx_table, record) != PFX_SUCCESS)\n\t\t\targs->error = true;", "new": "\t\targs->error = pfx_table_add(args->pfx_table, record) != PFX_SUCCESS;"},
+    {"id": "C06.w13-spki-swap-touches-the-callback", "rule": "C06.R2", "file": HT,
+     "old": "\tmemcpy(&b->list, &tmp_list, sizeof(tmp_list));\n", "new": "\tmemcpy(&b->list, &tmp_list, sizeof(tmp_list));\n\tb->update_fp = a->update_fp;\n"},
 ]
